@@ -76,6 +76,33 @@ def traversal_guards(prog, body, blk):
     return vals
 
 
+PATH_BUILD_OK = (r"(fmt::format|Arguments::new\w*|Arguments::<'a>::new\w*|PathBuf as std::convert::From<[^>]*>>::from|Path::new|Path::join|PathBuf::push|"
+                 r"Path::to_path_buf|String as std::convert::From<[^>]*>>::from|::to_string|::to_owned|::clone|::deref|::as_ref|::as_str|::as_path|::borrow|::into|"
+                 r"trim_start_matches|Argument::<'_>::new_display|Argument::new_display|hint::must_use)$")
+
+
+def transformed_after_test(d, guard_key):
+    """Calls between the value handed to the file system (d) and the tested value inside it that are not path building.
+    Returns None if the tested value does not occur in d at all."""
+    best = [None]
+
+    def walk(x, trail):
+        if isinstance(x, tuple):
+            if d_key(strip_wrappers(x)) == guard_key or d_key(x) == guard_key:
+                odd = [c for c in trail if not core.re.search(PATH_BUILD_OK, c)]
+                if best[0] is None or len(odd) < len(best[0]):
+                    best[0] = odd
+                return
+            t2 = trail + [x[1]] if x and x[0] == "call" else trail
+            for y in x:
+                walk(y, t2)
+        elif isinstance(x, list):
+            for y in x:
+                walk(y, trail)
+    walk(d, [])
+    return best[0]
+
+
 def count_calls(d, suffix):
     """Distinct call sites (callee, block) in a description (the tree repeats shared sub-terms)."""
     return len(set((c[1], c[3] if len(c) > 3 else None) for c in core.desc_calls(d) if c[1].endswith(suffix)))
@@ -117,6 +144,16 @@ def analyse_sinks(chk, prog, cfg):
             ok = same_value
             detail = ("a path derived from the request target reaches the file system without the `..` test on that same value "
                       f"(guards on: {[core.short(str(g))[:60] for g in guards]})")
+            if same_value:
+                odd = None
+                for g in guards:
+                    o = transformed_after_test(d, d_key(g))
+                    if o is not None and (odd is None or len(o) < len(odd)):
+                        odd = o
+                if odd:
+                    ok = False
+                    detail = (f"the value tested for `..` is transformed by {[core.short(x) for x in odd]} before it reaches the file system: what is opened is not what "
+                              "was tested (e.g. %2e%2e passes the test on the raw path and is decoded afterwards)")
             chk.ob("R1.traversal", fn, f"{sname}(request-derived path) dominated by !contains(\"..\") on the same value", ok, detail, where=b.where(blk), cfg=cfg)
             if in_tfp:
                 n_dec = count_calls(d, "percent_decode")
